@@ -171,13 +171,23 @@ impl BaseGrid {
         let bands = header[6] as usize;
         let rows = ((lat_s - lat_n) / dlat + 1.5).floor() as usize;
         let cols = ((lon_e - lon_w) / dlon + 1.5).floor() as usize;
-        let elements = rows * cols * bands;
+        // The header is untrusted: the element count may be zero or overflow, and
+        // the interpolation needs at least two rows and two columns
+        let elements = rows
+            .checked_mul(cols)
+            .and_then(|nodes| nodes.checked_mul(bands))
+            .unwrap_or(0);
 
         let offset = offset.unwrap_or(0);
 
         let grid = Vec::from(grid.unwrap_or(&[]));
 
-        if elements == 0 || (offset == 0 && elements > grid.len()) || bands < 1 {
+        if elements == 0
+            || rows < 2
+            || cols < 2
+            || (offset == 0 && elements > grid.len())
+            || bands < 1
+        {
             return Err(Error::General("Malformed grid"));
         }
 
@@ -290,12 +300,17 @@ fn gravsoft_grid_reader(buf: &[u8]) -> Result<(Vec<f64>, Vec<f32>), Error> {
     let dlon = header[5].copysign(lon_e - lon_w);
     let rows = ((lat_s - lat_n) / dlat + 1.5).floor() as usize;
     let cols = ((lon_e - lon_w) / dlon + 1.5).floor() as usize;
-    let bands = grid.len() / (rows * cols);
-    if (rows * cols * bands) > grid.len() || bands < 1 {
+    // The header is untrusted: rows * cols may be zero or overflow
+    let nodes = rows.checked_mul(cols).unwrap_or(0);
+    if nodes == 0 {
+        return Err(Error::General("Malformed Gravsoft header"));
+    }
+    let bands = grid.len() / nodes;
+    if bands < 1 {
         return Err(Error::General("Incomplete Gravsoft grid"));
     }
 
-    if (rows * cols * bands) != grid.len() {
+    if (nodes * bands) != grid.len() {
         return Err(Error::General(
             "Unrecognized material at end of Gravsoft grid",
         ));
